@@ -139,6 +139,11 @@ def step (s : St) (ws : List String) : St × String :=
     | some x => (s, s!"v {x.val}")
     | none => (s, exc .unknown_handle)
   | ["state"] => (s, observe s.ga none)
+  -- C11: a second activating `Stack` in the thread always raises `stack_already_active` (Stack::activate) and
+  -- leaves the first stack, hence the whole protocol state, untouched; deactivate/activate of the only stack is a no-op
+  | ["stack2"] => (s, exc .stack_already_active)
+  | ["deact"] => (s, "ok 0")
+  | ["act"] => (s, "ok 1")
   | [c, k, o] =>
     if c == "cadd" || c == "csub" || c == "cmul" then
       match k.toNat?, parseOperand o with
